@@ -143,3 +143,171 @@ Proof.
     f_equal. replace (2 ^ s) with (Mod w d * 2 ^ bs); [ring|].
     unfold Mod. rewrite Hdz, <- pow2_split by nia. f_equal. lia.
 Qed.
+
+(* ================================================================== *)
+(* shr_bits                                                            *)
+(* ================================================================== *)
+
+Lemma shr_bits_length w bs rds c : length (shr_bits w bs rds c) = length rds.
+Proof. revert c; induction rds as [|d r IH]; intros c; cbn [shr_bits length]; auto. Qed.
+
+(* the carry-in is always a multiple c * 2^(w-bs) of 2^(w-bs) with c < 2^bs:
+   the bs bits shifted out of the digit above *)
+Lemma shr_bits_spec w bs rds cy c : 0 < bs < w -> Forall (digit_ok w) rds ->
+  0 <= c < 2 ^ bs -> cy = c * 2 ^ (w - bs) ->
+  Forall (digit_ok w) (shr_bits w bs rds cy) /\
+  uval w (rev (shr_bits w bs rds cy)) = (uval w (rev rds) + c * Mod w (length rds)) / 2 ^ bs.
+Proof.
+  intros Hbs HF. revert cy c. induction HF as [|d r Hd HF IH]; intros cy c Hc Hcy;
+    cbn [shr_bits rev uval length].
+  - split; [constructor|]. rewrite Mod_0, Z.mul_1_r. symmetry. apply Z.div_small. lia.
+  - unfold digit_ok, B in Hd. unfold u_or, u_shl, u_shr, B. subst cy.
+    destruct (shr_digit w bs d c Hbs Hd Hc) as (Hlor & Hr & Hcy' & Hc').
+    destruct (IH _ (d mod 2 ^ bs) Hc' Hcy') as (IHF & IHv).
+    rewrite Hlor. split; [constructor; [exact Hr | exact IHF]|].
+    rewrite !uval_snoc by lia. rewrite IHv, !rev_length, shr_bits_length.
+    rewrite Mod_S by lia. unfold B.
+    assert (HQ : 0 < 2 ^ bs) by (apply pow2_pos; lia).
+    assert (HPQ : 2 ^ w = 2 ^ bs * 2 ^ (w - bs)) by (rewrite <- pow2_split by lia; f_equal; lia).
+    set (U := uval w (rev r)). set (Mn := Mod w (length r)).
+    set (Q := 2 ^ bs) in *. set (P := 2 ^ (w - bs)) in *.
+    pose proof (Z.div_mod d Q ltac:(lia)) as Hdm.
+    rewrite HPQ.
+    replace (U + Mn * d + c * (Q * P * Mn))
+      with ((U + d mod Q * Mn) + (Mn * (d / Q) + c * P * Mn) * Q)
+      by (rewrite Hdm at 3; ring).
+    rewrite Z.div_add by lia. ring.
+Qed.
+
+(* shifting a whole (little-endian) window right by bs < w bits: the window as
+   the model builds it (reverse, scan from the top, reverse back) *)
+Lemma shr_window w bs src : 0 < bs < w -> Forall (digit_ok w) src -> src <> [] ->
+  let low := rev (shr_bits w bs (rev src) 0) in
+  Forall (digit_ok w) low /\ length low = length src /\
+  uval w low = uval w src / 2 ^ bs /\
+  exists l a, low = l ++ [a] /\ 0 <= a < 2 ^ (w - bs).
+Proof.
+  intros Hbs HF Hne low.
+  assert (Hc0 : 0 <= 0 < 2 ^ bs) by (pose proof (pow2_pos bs); lia).
+  destruct (shr_bits_spec w bs (rev src) 0 0 Hbs (Forall_rev HF) Hc0 eq_refl) as (HF' & Hv).
+  split; [apply Forall_rev; exact HF'|].
+  split; [unfold low; rewrite rev_length, shr_bits_length, rev_length; reflexivity|].
+  split; [unfold low; rewrite Hv, rev_involutive; f_equal; lia|].
+  unfold low. destruct (rev src) as [|dt r] eqn:E.
+  - exfalso. apply Hne. rewrite <- (rev_involutive src), E. reflexivity.
+  - cbn [shr_bits rev]. eexists _, _. split; [reflexivity|].
+    unfold u_or, u_shr. rewrite Z.lor_0_r.
+    assert (Hdt : digit_ok w dt).
+    { assert (HFr : Forall (digit_ok w) (dt :: r)) by (rewrite <- E; apply Forall_rev; exact HF).
+      inversion HFr; assumption. }
+    unfold digit_ok, B in Hdt. pose proof (pow2_pos bs ltac:(lia)).
+    split; [apply Z.div_pos; lia|]. apply Z.div_lt_upper_bound; [lia|].
+    rewrite <- pow2_split by lia. replace (bs + (w - bs)) with w by lia. lia.
+Qed.
+
+Lemma set_nth_snoc f l a : set_nth (length l) f (l ++ [a]) = l ++ [f a].
+Proof.
+  unfold set_nth. rewrite firstn_app, skipn_app, firstn_all, skipn_all, Nat.sub_diag.
+  cbn [firstn skipn app]. rewrite app_nil_r. reflexivity.
+Qed.
+
+(* the `|= MAX << carry_shift` repair of the top copied digit *)
+Lemma sar_fix_digit w bs a : 0 < bs < w -> 0 <= a < 2 ^ (w - bs) ->
+  Z.lor a (((2 ^ w - 1) * 2 ^ (w - bs)) mod 2 ^ w) = a + (2 ^ bs - 1) * 2 ^ (w - bs) /\
+  0 <= a + (2 ^ bs - 1) * 2 ^ (w - bs) < 2 ^ w.
+Proof.
+  intros Hbs Ha.
+  assert (HP : 0 < 2 ^ (w - bs)) by (apply pow2_pos; lia).
+  assert (HQ : 0 < 2 ^ bs) by (apply pow2_pos; lia).
+  assert (HPQ : 2 ^ w = 2 ^ bs * 2 ^ (w - bs)) by (rewrite <- pow2_split by lia; f_equal; lia).
+  rewrite HPQ. set (Q := 2 ^ bs) in *. set (P := 2 ^ (w - bs)) in *.
+  rewrite Z.mul_mod_distr_r by lia.
+  replace ((Q * P - 1) mod Q) with (Q - 1).
+  2:{ replace (Q * P - 1) with ((Q - 1) + (P - 1) * Q) by ring.
+      rewrite Z.mod_add by lia. symmetry; apply Z.mod_small; lia. }
+  split; [unfold P; apply lor_disjoint_add'; fold P; lia|]. nia.
+Qed.
+
+(* ================================================================== *)
+(* 2. shr_pad_internal, both paddings, as a value                      *)
+(* ================================================================== *)
+
+Theorem shr_pad_internal_val w n x s neg : 0 < w -> wf w n x -> 0 <= s < bits w n ->
+  wf w n (shr_pad_internal w neg x s) /\
+  uval w (shr_pad_internal w neg x s)
+    = uval w x / 2 ^ s + (if neg then Mod w n - 2 ^ (bits w n - s) else 0).
+Proof.
+  intros Hw [Hl HF] Hs.
+  destruct (amount_split w n s Hw Hs) as (Hbs & Hq & Hsplit & Hd & Hdz).
+  unfold shr_pad_internal. rewrite Hl.
+  set (d := Z.to_nat (s / w)) in *. set (bs := s mod w) in *.
+  set (pad := if neg then u_max w else 0).
+  set (src := skipn d x).
+  assert (Hsrc_len : length src = (n - d)%nat) by (unfold src; rewrite skipn_length; lia).
+  assert (Hsrc_F : Forall (digit_ok w) src) by (apply Forall_skipn; exact HF).
+  assert (Hsrc_v : uval w src = uval w x / Mod w d)
+    by (unfold src; apply uval_skipn; auto; lia).
+  assert (Hsrc_ne : src <> []) by (intros E; rewrite E in Hsrc_len; cbn in Hsrc_len; lia).
+  assert (Hpad_ok : digit_ok w pad).
+  { unfold pad, u_max. destruct neg; [apply digit_ok_max | apply digit_ok_0]; lia. }
+  assert (Hpad_v : uval w (repeat pad d) = if neg then Mod w d - 1 else 0).
+  { unfold pad, u_max. destruct neg; [apply uval_repeat_max; lia | apply uval_repeat_0]. }
+  pose proof (Mod_pos w d ltac:(lia)) as HMd.
+  pose proof (Mod_pos w (n - d) ltac:(lia)) as HMnd.
+  assert (HMn : Mod w n = Mod w (n - d) * Mod w d)
+    by (rewrite <- Mod_add by lia; f_equal; lia).
+  assert (Hwd : w * Z.of_nat d = s - bs) by lia.
+  (* the common tail: a window `lo` of n-d digits followed by d pad digits *)
+  assert (Hfin : forall lo, Forall (digit_ok w) lo -> length lo = (n - d)%nat ->
+            wf w n (firstn n (lo ++ repeat pad d)) /\
+            uval w (firstn n (lo ++ repeat pad d))
+              = uval w lo + Mod w (n - d) * (if neg then Mod w d - 1 else 0)).
+  { intros lo HloF Hlol.
+    assert (Hlen : length (lo ++ repeat pad d) = n) by (rewrite app_length, repeat_length; lia).
+    rewrite firstn_all2 by lia. split.
+    - split; [exact Hlen|]. apply Forall_app; split; [exact HloF|]. apply Forall_repeat; exact Hpad_ok.
+    - rewrite uval_app, Hpad_v, Hlol by lia. reflexivity. }
+  destruct (Z.eqb_spec bs 0) as [E|E].
+  - destruct (Hfin src Hsrc_F Hsrc_len) as (Hwf & Hv). split; [exact Hwf|].
+    rewrite Hv, Hsrc_v.
+    assert (HsM : 2 ^ s = Mod w d) by (unfold Mod; f_equal; lia).
+    assert (HbM : 2 ^ (bits w n - s) = Mod w (n - d)) by (unfold Mod, bits; f_equal; lia).
+    rewrite HsM, HbM. destruct neg; [rewrite HMn; ring | ring].
+  - assert (Hbs' : 0 < bs < w) by lia.
+    destruct (shr_window w bs src Hbs' Hsrc_F Hsrc_ne) as (HlowF & Hlowl & Hlowv & l & a & Hlow & Ha).
+    set (low := rev (shr_bits w bs (rev src) 0)) in *.
+    assert (Hll : length l = (n - d - 1)%nat).
+    { rewrite Hlow, app_length in Hlowl. cbn [length] in Hlowl. lia. }
+    assert (Hvs : uval w low = uval w x / 2 ^ s).
+    { rewrite Hlowv, Hsrc_v. unfold Mod in *. pose proof (pow2_pos bs ltac:(lia)).
+      rewrite Z.div_div by lia.
+      rewrite <- pow2_split by lia. do 2 f_equal. lia. }
+    destruct neg.
+    + replace (n - d - 1)%nat with (length l) by exact Hll.
+      rewrite Hlow, set_nth_snoc.
+      destruct (sar_fix_digit w bs a Hbs' Ha) as (Hfix & Hfixr).
+      unfold u_or, u_shl, u_max, B. rewrite Hfix.
+      rewrite Hlow in HlowF. apply Forall_app in HlowF. destruct HlowF as (HlF & _).
+      destruct (Hfin (l ++ [a + (2 ^ bs - 1) * 2 ^ (w - bs)])) as (Hwf & Hv).
+      { apply Forall_app; split; [exact HlF|]. constructor; [exact Hfixr | constructor]. }
+      { rewrite app_length; cbn [length]; lia. }
+      split; [exact Hwf|]. rewrite Hv, <- Hvs, Hlow, !uval_snoc by lia.
+      assert (HMnd' : Mod w (n - d) = Mod w (length l) * 2 ^ w).
+      { rewrite Hll. replace (n - d)%nat with ((n - d - 1) + 1)%nat at 1 by lia.
+        rewrite Mod_add, Mod_1 by lia. reflexivity. }
+      assert (HPQ : 2 ^ w = 2 ^ bs * 2 ^ (w - bs)) by (rewrite <- pow2_split by lia; f_equal; lia).
+      assert (Hb : 2 ^ (bits w n - s) = Mod w (length l) * 2 ^ (w - bs)).
+      { unfold Mod, bits. rewrite <- pow2_split by lia. f_equal. rewrite Hll.
+        replace (Z.of_nat (n - d - 1)) with (Z.of_nat n - Z.of_nat d - 1) by lia. lia. }
+      rewrite Hb, HMn, HMnd', HPQ. ring.
+    + destruct (Hfin low HlowF) as (Hwf & Hv); [lia|].
+      split; [exact Hwf|]. rewrite Hv, Hvs. ring.
+Qed.
+
+Theorem shr_internal_ok w n x s : 0 < w -> wf w n x -> 0 <= s < bits w n ->
+  wf w n (shr_pad_internal w false x s) /\
+  uval w (shr_pad_internal w false x s) = uval w x / 2 ^ s.
+Proof.
+  intros Hw Hwf Hs. destruct (shr_pad_internal_val w n x s false Hw Hwf Hs) as (H1 & H2).
+  split; [exact H1|]. rewrite H2. lia.
+Qed.
